@@ -514,6 +514,7 @@ func (r *multiCIDRRangeAllocator) syncClusterCIDR(ctx context.Context, key strin
 	clusterCIDR, err := r.clusterCIDRLister.Get(key)
 	if apierrors.IsNotFound(err) {
 		logger.V(3).Info("clusterCIDR has been deleted", "key", key)
+		r.removeDeletedClusterCIDR(logger, key)
 		return nil
 	}
 
@@ -526,6 +527,34 @@ func (r *multiCIDRRangeAllocator) syncClusterCIDR(ctx context.Context, key strin
 		return r.reconcileDelete(ctx, clusterCIDR)
 	}
 	return r.reconcileCreate(ctx, clusterCIDR)
+}
+
+// removeDeletedClusterCIDR unmaps what is left of a ClusterCIDR that no longer exists. A ClusterCIDR
+// that carries the finalizer is unmapped by reconcileDelete before it can disappear; this only finds
+// something when the object was deleted before the finalizer could be persisted. An entry that still
+// has associated nodes is kept, marked as terminating, so that it is not used for new allocations.
+func (r *multiCIDRRangeAllocator) removeDeletedClusterCIDR(logger klog.Logger, name string) {
+	r.lock.Lock()
+	defer r.lock.Unlock()
+
+	for selector, clusterCIDRSetList := range r.cidrMap {
+		for i, clusterCIDRSet := range clusterCIDRSetList {
+			if clusterCIDRSet.Name != name {
+				continue
+			}
+			clusterCIDRSet.Terminating = true
+			if len(clusterCIDRSet.AssociatedNodes) > 0 {
+				break
+			}
+			logger.V(2).Info("Removing leftover cidrSets of deleted ClusterCIDR", "clusterCIDR", name)
+			if len(clusterCIDRSetList) == 1 {
+				delete(r.cidrMap, selector)
+			} else {
+				r.cidrMap[selector] = append(clusterCIDRSetList[:i:i], clusterCIDRSetList[i+1:]...)
+			}
+			break
+		}
+	}
 }
 
 // occupyCIDRs marks node.PodCIDRs[...] as used in allocator's tracked cidrSet.
